@@ -159,6 +159,12 @@ pub fn run_batch(
                         }
                     }
                 }
+                if std::env::var("VERIF_DEBUG_MEM").is_ok() {
+                    eprintln!(
+                        "shard: runs={} nontrivial={} loghashes={} hashes={} found={} samples={} probes={}",
+                        sh.runs, sh.nontrivial.len(), sh.loghashes.len(), sh.hashes.len(), sh.found.len(), sh.samples.len(), sh.probes.len()
+                    );
+                }
                 shards.lock().unwrap().push(sh);
             });
         }
